@@ -997,6 +997,23 @@ def _is_wild(s):
     return isinstance(s, ast.Expr) and isinstance(s.value, ast.Constant) and s.value.value is Ellipsis
 
 
+def _shared_tail_return(stmts):
+    """if not c: return X    <body>    return X   ->   if c: <body>    return X   (X a plain name / constant / attribute the body does not assign)"""
+    out = list(stmts)
+    for i, s in enumerate(out):
+        if isinstance(s, ast.If) and not s.orelse and len(s.body) == 1 and isinstance(s.body[0], ast.Return) and s.body[0].value is not None and i + 2 <= len(out) - 1:
+            last = out[-1]
+            x = s.body[0].value
+            if isinstance(last, ast.Return) and last.value is not None and ast.dump(last.value) == ast.dump(x) and _simple_arg(x):
+                body = out[i + 1:-1]
+                names = {n.id for n in ast.walk(x) if isinstance(n, ast.Name)}
+                assigned = {n.id for b in body for n in ast.walk(b) if isinstance(n, ast.Name) and isinstance(n.ctx, ast.Store)}
+                if body and not (names & assigned) and not any(isinstance(n, ast.Return) for b in body for n in _walk_same_function(b)):
+                    new = ast.If(test=_negate(s.test), body=body, orelse=[])
+                    return out[:i] + [ast.fix_missing_locations(ast.copy_location(new, s)), last]
+    return out
+
+
 def _walk_loop_body(node):
     """nodes of a loop body that belong to this loop (nested loops keep their own break statements)"""
     yield node
@@ -1182,6 +1199,7 @@ def canon_flow_list(stmts, pattern=False):
         out.append(s)
     if not pattern:
         out = _sentinel_search(out)
+        out = _shared_tail_return(out)
     # a loop without `break`: its else-clause is simply what follows
     flat = []
     for s in out:
@@ -1243,11 +1261,16 @@ class _Compare(ast.NodeTransformer):
 
     def visit_Compare(self, node):
         self.generic_visit(node)
+        # a constant on the left moves to the right: 0 <= x  ->  x >= 0
+        if len(node.ops) == 1 and isinstance(node.left, ast.Constant) and not isinstance(node.comparators[0], ast.Constant):
+            flip = {ast.Lt: ast.Gt, ast.LtE: ast.GtE, ast.Gt: ast.Lt, ast.GtE: ast.LtE, ast.Eq: ast.Eq, ast.NotEq: ast.NotEq}
+            if type(node.ops[0]) in flip:
+                node = ast.copy_location(ast.Compare(left=node.comparators[0], ops=[flip[type(node.ops[0])]()], comparators=[node.left]), node)
         if len(node.ops) > 1 and all(_simple_arg(c) for c in node.comparators[:-1]):
             parts = []
             left = node.left
             for op, right in zip(node.ops, node.comparators):
-                parts.append(ast.Compare(left=left, ops=[op], comparators=[right]))
+                parts.append(self.visit_Compare(ast.Compare(left=left, ops=[op], comparators=[right])))
                 left = right
             return ast.fix_missing_locations(ast.copy_location(ast.BoolOp(op=ast.And(), values=parts), node))
         return node
